@@ -495,6 +495,27 @@ func getFuncKindAndReceiver(funcDecl *ast.FuncDecl) (TestOnlyKind, string) {
 	return TestOnlyOnFunc, ""
 }
 
+// ResolveReceiverType returns the name of the defined type a method belongs to.
+// The receiver may be spelled through an alias ("type A = T; func (a A) M()"): the method
+// is a method of T. Falls back to the spelled name when no type information is available.
+func ResolveReceiverType(pass *analysis.Pass, funcDecl *ast.FuncDecl, spelled string) string {
+	if pass == nil || pass.TypesInfo == nil || funcDecl == nil || funcDecl.Name == nil {
+		return spelled
+	}
+	fn, ok := pass.TypesInfo.Defs[funcDecl.Name].(*types.Func)
+	if !ok || fn == nil {
+		return spelled
+	}
+	sig, ok := fn.Type().(*types.Signature)
+	if !ok || sig.Recv() == nil {
+		return spelled
+	}
+	if name := util.ExtractTypeName(sig.Recv().Type()); name != "" {
+		return name
+	}
+	return spelled
+}
+
 // ExtractReceiverType extracts the receiver type name from a receiver type expression
 // Examples: *MyStruct -> MyStruct, MyStruct -> MyStruct
 func ExtractReceiverType(expr ast.Expr) string {
@@ -653,6 +674,9 @@ func ReadAllAnnotations(
 
 			// Determine if it's a method or function
 			kind, receiverType := getFuncKindAndReceiver(funcDecl)
+			if kind == TestOnlyOnMethod {
+				receiverType = ResolveReceiverType(pass, funcDecl, receiverType)
+			}
 
 			for _, comment := range funcDecl.Doc.List {
 				text := comment.Text
